@@ -65,6 +65,15 @@ DoReturn(R, cid, m) ==
 CanCancel(R, cid) == cid \in DOMAIN R.call /\ R.call[cid].st \in {"new", "sent"}
 DoCancel(R, cid) == [R EXCEPT !.call = PutF(R.call, cid, [R.call[cid] EXCEPT !.st = "done", !.cancelled = TRUE])]
 
+\* the pending table is bounded (Remote.PendingLimit / PendingDiscard: when it holds `limit` entries the oldest `discard`
+\* are dropped).  Entries of abandoned calls are the old ones: a late reply whose call has already returned is forgotten.
+\* Nothing else may change: the entry's channel is not handed to any other call (seed C14i recycled it).
+\* Deliberate limit of the code, named here: with `limit` calls really waiting at once the oldest *live* waiters are dropped
+\* too and never return; the drivers stay below that (wide runs: 40/45 of 50) or configure no limit (c14-wide-nolimit).
+CanEvict(R, ep, m) == /\ m \in R.pend[ep]
+                      /\ \A cid \in DOMAIN R.call : (R.call[cid].ep = ep /\ R.call[cid].id = m.id) => R.call[cid].st = "done"
+DoEvict(R, ep, m) == [R EXCEPT !.pend = [R.pend EXCEPT ![ep] = R.pend[ep] \ {m}]]
+
 -----------------------------------------------------------------------------
 (* properties of a state *)
 
